@@ -140,6 +140,10 @@ func runRoundTrip(o opts, out *Output, sig int) {
 			res := pr.produce(data)
 			if res.Class != "ok" {
 				stats["producer_"+res.Class]++
+				// every generated batch is inside the property's domain (few parents, valid strings): not encoding it is a
+				// round-trip failure
+				out.Violation(fmt.Sprintf("C0%d", sig+1), "valid-batch-not-encoded", fmt.Sprintf("the producer did not encode a valid batch (%s): %s", res.Class, res.Msg),
+					map[string]any{"seed": o.seed, "case": c, "batch": b, "signal": signal, "options": optName})
 				break
 			}
 			for _, e := range res.Events {
